@@ -13,7 +13,11 @@ impl Clone for KString {
 }
 /// Effects behind `&self` cannot be given a two-state contract (RefCell); what CAN be stated is which writes a caller
 /// is entitled to make: `set_global` / `set_index` carry a precondition naming the permitted (name, value).
+/// identity of a runtime (scope): which bindings a node is rendered under
+#[verifier::external_body]
+pub struct RtId { _p: u8 }
 pub trait Runtime {
+    spec fn ident(&self) -> RtId;
     /// current value of the counter `name` (0 if it was never set)
     spec fn counter_now(&self, name: KString) -> int;
     /// the global write the tag being rendered is entitled to
